@@ -410,7 +410,12 @@ def cluster_check(args, pid, judge_queries, topos, quick_n, thorough_n, text, no
                         qs += [("SELECT * FROM a", True), ("SELECT f FROM a GROUP BY b, period(4s)", True),
                                ("SELECT f FROM b ORDER BY f DESC LIMIT 2", True), ("SELECT f, g FROM a GROUP BY a HAVING f > 16", True),
                                ("SELECT f FROM a WHERE b IN (SELECT b FROM b) GROUP BY a", True),
-                               ("SELECT f FROM a GROUP BY CROSSTAB(b), a", True)]
+                               ("SELECT f FROM a GROUP BY CROSSTAB(b), a", True),
+                               # HAVING decides before ORDER BY / LIMIT cut (both plan shapes: pushed down or not)
+                               ("SELECT f FROM a GROUP BY a HAVING f > 16 ORDER BY f LIMIT 2", True),
+                               # (no OFFSET here: a pushed-down OFFSET is the known finding D11 of C11)
+                               ("SELECT f FROM a GROUP BY b HAVING f > 16 ORDER BY f LIMIT 1", True),
+                               ("SELECT f, g FROM a GROUP BY a, b HAVING g > 4 ORDER BY f LIMIT 2", True)]
                     sc = scenario_from_cluster_hist("%s-%d-%d" % (pid, gi, j), topo, tabs, menus, h, fols, qs)
                     sc["tabs_variant"] = [t.partition_by for t in tabs]
                     scenarios.append(sc)
